@@ -70,6 +70,13 @@ CHECKS = {
  'C18': dict(sec='3/C18', tech='TraceSummary.tla validation of the real task_summary outputs for seeded triplet tables (exact rational comparison of medians and min-max normalisation)',
              text='Seeded pairwise_ranks tables are summarised by the real outrank_task_result_summary and the two output files are validated by TraceSummary.tla: each feature scored against the label exactly once, score = median (min-max normalised for MI heuristics, best 1 / worst 0), descending order, aggregated table = per-constituent median over the interaction features.',
              note='trace validation only (no exhaustive model); base names without "-"; 80 (quick) / 1500 (thorough) tables'),
+
+ 'C19': dict(sec='3/C19', tech='TLC on Generators.tla part data (generate_data cursor machine over every structure) + replay through the real generate_data with distinguishable domains + TraceGenerators.tla on the recorded data sets (domain, representation, shape, seed)',
+             text='The cursor machine FillGap/PlaceDeclared/FillRest is model-checked (ShapeExact, DeclaredAtDeclaredIndex, OthersDefault) for every structure of a bounded space; each structure is replayed through the real generator with pairwise distinguishable domains so that column value sets identify the placement; recorded data sets incl. the n_samples = |domain| boundary and random-draw domains are validated by TraceGenerators.tla; seed determinism within and across processes; naive generator and data_generator task.',
+             note='structures: <=3 entries over <=5 columns, strictly increasing indices (precondition)'),
+ 'C20': dict(sec='3/C20', tech='TLC on Generators.tla part info (bookkeeping over every call sequence) + replay on the real generator + TraceGenerators.tla on measured correlation / labels / noise / down-sampling results',
+             text='InfoListsExactlyAddedColumns is model-checked over every sequence of correlate/duplicate/combine calls; each sequence is replayed on the real class comparing appended columns, self-description records, copies, combination functions and Pearson correlation; seeded label, noise, missing-value and down-sampling calls are measured and validated by TraceGenerators.tla (monotone step labels, class proportions when tie-free, noise budget and domain, exact marker counts, input untouched, per-class row counts).',
+             note='Pearson correlation and percentiles computed by numpy (outside TLC); call sequences <= 3 over 3 source columns'),
 }
 
 checks = []
